@@ -227,7 +227,11 @@ class Linker:
         symbol_id_mapping = {}
         for symbol in obj.symbols:
             # Shift symbol value if required:
-            if symbol.defined:
+            if symbol.defined and symbol.section is None:
+                # Absolute symbol (for example from extra_symbols):
+                value = symbol.value
+                section = None
+            elif symbol.defined:
                 value = section_offsets[symbol.section] + symbol.value
                 section = symbol.section
             else:
